@@ -12,6 +12,7 @@ import CtyModel.Lemmas.d02Reject
 import CtyModel.Lemmas.d02Coll
 import CtyModel.Lemmas.d02Mod
 import CtyModel.Lemmas.d02Has
+import CtyModel.Lemmas.OpsFnsTie
 namespace CtyModel
 namespace C02
 open Num Value
@@ -642,6 +643,21 @@ example : D02.EqExact (.fin false 3 0 53) (.fin false 3 0 512) = true := by deci
 example : D02.Wrong .number Ty.string := ⟨by decide, by decide⟩
 example : D02.Good .string (.s "a") := ⟨by decide, by decide, by decide⟩
 example : keyIndex ⟨.number, .n (.fin false 1 (-1) 53)⟩ = .ok none := by decide
+
+/-! ### the same clauses about the REGENERATED definitions
+
+`Generated/OpsFns.lean` is rewritten from cty/value_ops.go by `extract/translate_ops.go` on every
+check; `Lemmas/OpsFnsTie.lean` proves each generated method equal to the hand-written one (for all
+operands with at most one marker layer), so the clauses above hold of the translated source text. -/
+
+/-- `logic_truth_tables` for the translated `Value.Not`, `And`, `Or`. -/
+theorem logic_truth_tables_generated (x y : Bool) :
+    Generated.OpsFns.Value_Not (boolVal x) = .ok (boolVal (!x)) ∧
+    Generated.OpsFns.Value_And (boolVal x) (boolVal y) = .ok (boolVal (x && y)) ∧
+    Generated.OpsFns.Value_Or (boolVal x) (boolVal y) = .ok (boolVal (x || y)) := by
+  rw [OpsFnsTie.not_eq _ (OpsFnsTie.single_boolVal x), OpsFnsTie.and_eq _ _ (OpsFnsTie.single_boolVal x) (OpsFnsTie.single_boolVal y),
+    OpsFnsTie.or_eq _ _ (OpsFnsTie.single_boolVal x) (OpsFnsTie.single_boolVal y)]
+  exact logic_truth_tables x y
 
 end C02
 end CtyModel
